@@ -2206,6 +2206,23 @@ func (vc *VC) GenerateLemmas(lemmas []*Clause) (err error) {
 	vc.st = &State{h: map[string]string{}}
 	vc.entry = vc.st
 	for _, l := range lemmas {
+		if l.Kind == "roundtrip" || l.Kind == "jsoncompat" {
+			t0 := time.Now()
+			ok, why, steps, trusted, err := vc.P.EvalJSONClause(l, vc.P.Spec.LemmaPkg[l])
+			if err != nil {
+				return err
+			}
+			for _, tr := range trusted {
+				vc.assumedUsed[tr] = true
+			}
+			o := &Obligation{Func: vc.key, Name: "[" + strings.Join(l.Labels, ",") + "]", Kind: "ground", Detail: fmt.Sprintf("%s %s (%d derivation steps)", l.Kind, l.Text, steps), Clause: l, Goal: "true", Guard: "true",
+				Solver: "json-judgement", Ms: time.Since(t0).Milliseconds(), Result: "unsat", Site: token.Position{Filename: l.File, Line: l.Line}}
+			if !ok {
+				o.Result, o.Model = "sat", "judgement fails: "+why
+			}
+			vc.obls = append(vc.obls, o)
+			continue
+		}
 		if l.Kind == "ground" {
 			t0 := time.Now()
 			ok, wit, steps, err := vc.P.EvalGround(l, vc.P.Spec.LemmaPkg[l])
